@@ -151,6 +151,34 @@ theorem goodQ_close (content : Id → Int → Int → Cell) (st : St) (id : Id) 
     rw [hw] at hw0; cases hw0
     exact ⟨w', hw', by rw [hr]; exact h1, by rw [hr]; exact h2⟩
 
+
+/-- Closing a window without a parent (the root window, or a window closed before) only marks it. -/
+theorem goodQ_close_orphan (content : Id → Int → Int → Cell) (st : St) (id : Id) (t' : Tree) (w0 : Win)
+    (hw0 : WinTree.get st.tree id = .ok w0) (hp : w0.parent = none)
+    (h : WinTree.close st.tree st.fuel id = .ok t') (hg : GoodQ content st) : GoodQ content { st with tree := t' } := by
+  unfold WinTree.close at h
+  simp only [bind, Bind.bind, hw0, hp, pure, Pure.pure] at h
+  unfold WinTree.modify at h
+  simp only [bind, Bind.bind, hw0, pure, Pure.pure, Res.ok.injEq] at h
+  subst h
+  have hI := hg.tinv
+  have hcore : ∀ x : Id, ((WinTree.set st.tree id { w0 with isClosed := true }).wins[x]?).map core = (st.tree.wins[x]?).map core :=
+    core_set_closed st.tree id w0 (get_ok hw0).1
+  have hsz : (WinTree.set st.tree id { w0 with isClosed := true }).wins.size = st.tree.wins.size := set_size _ _ _
+  exact { tinv := ⟨treeOk_congr_core hcore hI.ok, ordered_core hcore hI.ord, rootOk_congr_core (hcore 0) hI.root,
+                   rootsPositive_congr_core hcore hI.pos, hI.nonempty, hI.dinv, fun L C w l c ho => by
+                     rw [ownerAt_congr_view (fun x => map_core_view (hcore x)) hsz] at ho
+                     exact hI.inv L C w l c ho⟩
+          flags := hg.flags
+          queue := hg.queue
+          queueLater := hg.queueLater
+          term := (by
+            obtain ⟨w, a, b, c⟩ := hg.term
+            obtain ⟨w', hw', hc⟩ := map_core_some (hcore 0) a
+            simp only [core, Prod.mk.injEq] at hc
+            exact ⟨w', hw', by rw [hc.2.2.1]; exact b, by rw [hc.2.2.1]; exact c⟩)
+          pc := parentListed_core hcore hg.pc }
+
 /-! ### restacking requests -/
 
 theorem goodQ_request (content : Id → Int → Int → Cell) (st : St) (ch : Change) (id : Id) (t' : Tree)
